@@ -33,6 +33,8 @@ pub struct OracleState {
 	pub watch_last: BTreeMap<(usize, [u8; 32], u32), u64>,
 	/// (node, chan) -> ((durable update id, blob len), numbers)
 	pub durable_cache: BTreeMap<(usize, usize), ((u64, usize), (u64, u64, u64))>,
+	/// (payment hash, receiving node) -> (amount, cltv) of every update_add_htlc delivered
+	pub adds_delivered: BTreeMap<([u8; 32], usize), Vec<(u64, u32)>>,
 }
 
 impl World {
@@ -73,6 +75,7 @@ impl World {
 				l.have_params = true;
 			},
 			WireMsg::Add(u) => {
+				self.oracle_forward_admission(from, u);
 				let first = self.ledgers[li].sides[side].add_ids_emitted.insert(u.htlc_id);
 				if self.ledgers[li].sides[side].shutdown_sent {
 					self.oracle_add_after_shutdown(from, li, u.htlc_id, first);
@@ -125,7 +128,88 @@ impl World {
 		}
 	}
 
-	pub fn observe_deliver(&mut self, _from: usize, _to: usize, _m: &WireMsg) {}
+	pub fn observe_deliver(&mut self, _from: usize, to: usize, m: &WireMsg) {
+		if let WireMsg::Add(u) = m {
+			self.oracle
+				.adds_delivered
+				.entry((u.payment_hash.0, to))
+				.or_default()
+				.push((u.amount_msat, u.cltv_expiry));
+		}
+	}
+
+	/// C02-3: what a forwarding node offers downstream never exceeds what it received upstream
+	/// less its advertised fee and CLTV delta; an HTLC that underpays either is not forwarded.
+	fn oracle_forward_admission(&mut self, from: usize, add: &lightning::ln::msgs::UpdateAddHTLC) {
+		let pi = match self.pays.iter().position(|p| p.hash == add.payment_hash) {
+			Some(p) => p,
+			None => return,
+		};
+		let p = self.pays[pi].clone();
+		if p.from == from {
+			return;
+		}
+		// which hop of which path is this?
+		let mut matched = None;
+		for path in p.paths.iter() {
+			for i in 0..path.nodes.len().saturating_sub(1) {
+				if path.nodes[i] == from && path.hop_amts[i + 1] == add.amount_msat {
+					matched = Some((path.clone(), i));
+				}
+			}
+		}
+		let (path, i) = match matched {
+			Some(x) => x,
+			None => {
+				if p.paths.iter().any(|x| x.nodes[..x.nodes.len() - 1].contains(&from)) {
+					self.violate(
+						"C02",
+						"C02-3 forwarded amount differs from the onion's instruction",
+						format!("node {} forwards {} msat of pay {} which no hop of its route prescribes", from, add.amount_msat, pi),
+					);
+				}
+				return;
+			},
+		};
+		self.out.bump("oracle:C02-3 forwarding admission arithmetic");
+		if p.policy_violating {
+			self.violate(
+				"C02",
+				"C02-3 HTLC underpaying the advertised fee or CLTV delta was forwarded",
+				format!("node {} forwarded pay {} although its route underpays the node's policy", from, pi),
+			);
+			return;
+		}
+		let ups = self.oracle.adds_delivered.get(&(add.payment_hash.0, from)).cloned().unwrap_or_default();
+		let up = ups.iter().find(|(a, _)| *a == path.hop_amts[i]).cloned();
+		let (amt_up, cltv_up) = match up {
+			Some(x) => x,
+			None => {
+				self.violate(
+					"C02",
+					"C02-3 HTLC forwarded without a matching inbound HTLC",
+					format!("node {} pay {}: no inbound update_add_htlc of {} msat was delivered before", from, pi, path.hop_amts[i]),
+				);
+				return;
+			},
+		};
+		let c = self.nodes[from].cfg.clone();
+		let need_fee = c.fee_base_msat as u64 + add.amount_msat * c.fee_prop_millionths as u64 / 1_000_000;
+		if amt_up < add.amount_msat + need_fee {
+			self.violate(
+				"C02",
+				"C02-3 forwarded for less than the advertised fee",
+				format!("node {} pay {}: in {} msat, out {} msat, advertised fee {} msat", from, pi, amt_up, add.amount_msat, need_fee),
+			);
+		}
+		if cltv_up < add.cltv_expiry + c.cltv_delta as u32 {
+			self.violate(
+				"C02",
+				"C02-3 forwarded with less than the advertised CLTV delta",
+				format!("node {} pay {}: in expiry {}, out expiry {}, advertised delta {}", from, pi, cltv_up, add.cltv_expiry, c.cltv_delta),
+			);
+		}
+	}
 
 	pub fn ledger_disconnect(&mut self, x: usize, y: usize) {
 		for l in self.ledgers.iter_mut() {
@@ -737,6 +821,44 @@ impl World {
 			);
 		}
 		let _ = pay;
+	}
+
+	/// C02-5: the fee PaymentForwarded reports is the difference between what came in and what
+	/// went out for that HTLC.
+	pub fn oracle_on_forwarded(&mut self, n: usize, fee: Option<u64>, out_amt: u64, onchain: bool) {
+		self.out.bump("oracle:C02-5 PaymentForwarded fee is in minus out");
+		if onchain {
+			self.out.bump("probe:forward_claimed_from_onchain_tx");
+		}
+		let mut expect = None;
+		for p in self.pays.iter() {
+			for path in p.paths.iter() {
+				for i in 0..path.nodes.len().saturating_sub(1) {
+					if path.nodes[i] == n && path.hop_amts[i + 1] == out_amt {
+						expect = Some((p.idx, path.hop_amts[i] - path.hop_amts[i + 1]));
+					}
+				}
+			}
+		}
+		match (expect, fee) {
+			(Some((pi, e)), Some(f)) => {
+				if e != f {
+					self.violate(
+						"C02",
+						"C02-5 PaymentForwarded reports a wrong fee",
+						format!("node {} pay {}: event says {} msat, in minus out is {} msat", n, pi, f, e),
+					);
+				}
+			},
+			(None, _) => {
+				self.violate(
+					"C02",
+					"C02-5 PaymentForwarded for an HTLC nobody routed through this node",
+					format!("node {}: outbound amount {} msat", n, out_amt),
+				);
+			},
+			_ => {},
+		}
 	}
 
 	pub fn oracle_on_claimable(&mut self, n: usize, pay: usize, amount: u64, deadline: Option<u32>) {
